@@ -1443,6 +1443,8 @@ def run(ctx):
     rule_gzip_members(ctx)
     rule_size_accounting(ctx, px)
     rule_null_is_none(ctx, px)
+    from .common import rule_send_headers_verbatim
+    rule_send_headers_verbatim(ctx, "record-grammar")
     from .common import rule_instance_state
     rule_instance_state(ctx, ("aiokafka.record.",))
     rep.nd("value-level round-trip for all record sequences (varint arithmetic, timestamps beyond int32 deltas, compression codecs)")
